@@ -249,7 +249,8 @@ impl PanicInfo {
                 last_hash = false;
             }
         }
-        let file = self.file.trim_start_matches("/repo/");
+        let root = format!("{}/", crate::report::repo_root());
+        let file = self.file.trim_start_matches(root.as_str());
         format!("panic:{}:{}:{}", self.kind, file, norm)
     }
 }
